@@ -193,7 +193,7 @@ def run_harness(pid, tier, seed, outdir, replay=None):
         return False, "harness does not build against %s:\n%s" % (REPO, out[-3000:])
     shutil.rmtree(outdir, ignore_errors=True)
     os.makedirs(outdir)
-    env = dict(GOENV, HX_PROP=pid, HX_SEED=str(seed), HX_TIER=tier, HX_OUT=outdir, HX_REPO=REPO)
+    env = dict(GOENV, HX_PROP=pid, HX_SEED=str(seed), HX_TIER=tier, HX_OUT=outdir, HX_REPO=REPO, HX_CORPUS=os.path.join(VERIF, "corpus"))
     if replay:
         env["HX_REPLAY"] = replay
     to = 7200 if tier == "thorough" else 900
